@@ -3,6 +3,7 @@ package sim
 import (
 	"context"
 	"fmt"
+	"os"
 	"runtime"
 	"strings"
 	"time"
@@ -193,6 +194,14 @@ func RunPlan(pr *Profile, p *Plan, keep bool) *Outcome {
 		}
 		if pr.Nontrivial != nil {
 			out.Nontrivial = pr.Nontrivial(w)
+		}
+		if os.Getenv("VERIF_DEBUG") != "" {
+			for _, g := range simrt.Live() {
+				fmt.Fprintf(os.Stderr, "LIVE %v parked=%v\n", g, g.Parked())
+			}
+			if os.Getenv("VERIF_DEBUG") == "stack" {
+				fmt.Fprintln(os.Stderr, StackDump())
+			}
 		}
 		out.Steps, out.FakeNS, out.Digest, out.NEv = e.Step, int64(e.Now()), e.Digest(), e.NEv
 		out.Stats = e.Stats
